@@ -52,8 +52,8 @@ CHECKS = [
  dict(property_id='C10', design_ref='DESIGN.md 7 C10',
       technique='Lean 4 proof (validator soundness by induction, arity characterisation, error provenance) + validator correspondence',
       text='Proved in Lean: an accepted tree never evaluates to UndefinedVariable or FunctionNotFound in a lawful environment (StaticEnvironment is lawful unless a native function itself returns FunctionNotFound - shown necessary), '
-           'function_exists <-> n in the registered arity range for all four arity kinds, a rejection names an offending node of the tree. Acceptance after optimize and parameter-count errors of builtins are covered by the opt and call streams (falsifier) - see level_note.',
-      note=TB + 'PARTIAL: "still accepted after optimize" and "no parameter-count error for documented kinds" are checked by differential streams/falsifier on this run, not yet by a theorem (planned: regenerated dispatch tables).'),
+           'function_exists <-> n in the registered arity range for all four arity kinds, a rejection names an offending node of the tree. The tree is still accepted after optimize, also the partially rewritten tree of a failed run (check_stable_under_optimize; the converse is shown false). On the tables regenerated from the running crate: registry answers = arity ranges, and no call within arity with documented kinds answers WrongParameterCount (1365 kind tuples x 77 builtins, decide +kernel).',
+      note=TB + 'the dispatch table is obtained by executing every builtin on representative values of each kind tuple (finite table, regenerated per run); the dcall stream adds random values of the documented kinds.'),
  dict(property_id='C11', design_ref='DESIGN.md 7 C11',
       technique='Lean 4 proof by induction using the Boolean-result lemmas of the interpreter model + validator correspondence',
       text='Proved in Lean: if check_boolean_result accepts a tree and its result-position variables/calls yield Booleans, every successful evaluation yields a Boolean (bool_result), for all environments incl. undefined operands; '
@@ -98,9 +98,22 @@ CHECKS = [
            'at enumerates the string over first..first+length-1 and fails outside, copy(s, find(s,x), length(x)) = x for every substring, failed find = first-1 (arrays -1), insert/copy/length coherence, reverse involutive, unique = first-occurrence dedup, csv/trim/case functions — for both offsets and all strings (characters, not bytes). '
            'Tie: 21 builtins in both index-base builds against the model; falsifier: the laws evaluated on the builtins.',
       note=TB + 'LawfulIdx (small integers exact in binary64) is a hypothesis of the position theorems, tied by the num stream; Unicode tables from Rust std.'),
+
+ dict(property_id='C16', design_ref='DESIGN.md 7 C16',
+      technique='Lean 4 proofs: calendar bijection by omega for all years, rounding bound over Q (Mathlib) for decode(encode), builtin specifications + exhaustive date / millisecond enumeration against the crate',
+      text='Proved in Lean: days-from-civil and civil-from-days are mutually inverse for ALL dates (every integer year), day numbering starts at 1970-01-01 and steps by one per calendar day, weekday/leap/month-length rules, addMonths = whole months with clamping; '
+           'for every number type satisfying LawfulTimeNum: decode(encode t) = t for all valid dates of years 1-9999 x all milliseconds, every component extractor, encode_date/encode_time specifications and rejections, default-format string round trips, inc_month, date+time = x. '
+           'The rounding fact behind decode(encode) is proved over Q from the standard model of floating point. Tie: quick = sampled ranges; thorough = all 3.65 M dates and all 86.4 M ms evaluated on the crate and on the model (digest comparison).',
+      note=TB + 'LawfulTimeNum Float (binary64 follows the standard model on these operands) is the trusted assumption, sampled by the num and tmrange streams; chrono beyond the modelled calendar/format subset is skipped and counted.'),
+
+ dict(property_id='C17', design_ref='DESIGN.md 7 C17, 15.2',
+      technique='Lean 4 proofs on core Float.Model through a proved bits bridge: parse(display x) = x for every double, trunc/frac/round/even/hex characterisations, chr/ord inverse + builtin correspondence and std/libm comparison on the crate',
+      text='Proved in Lean: float(str(x)) = x for EVERY double, unconditionally (shortest-digit search finds a candidate within 17 digits; Float.ofScientific rounds correctly; parse reads back what display emits); chr/ord mutually inverse on 0-127 and rejecting all other code points and strings; '
+           'int_to_hex = upper-case base-16 numeral of the truncated value; even/odd = divisibility for every integer-valued double; trunc idempotent/toward zero, trunc+frac = x bit for bit (finite, except -0), round = nearest integer with ties away from zero; wrappers = library functions with the documented defaults and error arms. '
+           'Observation recorded: chr accepts fractional positions inside 0..127 (as u32 truncation). Tie: builtins vs model; falsifier: builtins vs f64 methods bit for bit, all code points exhaustively.',
+      note=TB + 'libm functions are parameters (the property only says the builtin is the library function); the F64 bridge relates SlacModel/Num.lean bit-level definitions to core Float.Model and is proved, the compiled Float operations implementing Float.Model is core Lean\'s claim.'),
 ]
 _PENDING = 'not yet claimed: its model, theorems and streams are under construction in this framework (see DESIGN.md section 12, build order)'
-NOT_APPLICABLE = [dict(property_id=p, reason=_PENDING) for p in
-                  ['C16','C17']]
+NOT_APPLICABLE = []
 NOTES = ('All checks share one engine: tools/check.py <id>. Replays: tools/check.py <id> --replay <file>. '
          'known_findings.json lists recorded defects (KNOWN-FINDING lines) and fixed ones.')
